@@ -229,6 +229,10 @@ func (db *DB) writeLocked(batch, ourBatch *Batch, merge, sync bool) error {
 
 	// Write journal.
 	if err := db.writeJournal(batches, seq, sync); err != nil {
+		// The journal may already hold this record (for instance when only
+		// the sync failed): skip its sequence numbers, so that a later write
+		// can never be logged under the same ones.
+		db.addSeq(uint64(batchesLen(batches)))
 		db.unlockWrite(overflow, merged, err)
 		return err
 	}
